@@ -415,6 +415,10 @@ type ctxKeyT int
 
 // buildServer constructs the real server scripted by the case.
 func buildServer(c *cfgT, reg *registry, extra ...wire.OptionFn) (*wire.Server, error) {
+	// the declared columns of a statement are built once per server and shared by every connection and every
+	// preparation (an application declares its tables once)
+	var colMu sync.Mutex
+	colCache := map[*stmtT]wire.Columns{}
 	parse := func(ctx context.Context, query string) (wire.PreparedStatements, error) {
 		r := reg.of(ctx)
 		r.checkCtx(ctx, true)
@@ -440,10 +444,16 @@ func buildServer(c *cfgT, reg *registry, extra ...wire.OptionFn) (*wire.Server, 
 		var out wire.PreparedStatements
 		for i := range entry.stmts {
 			s := &entry.stmts[i]
-			cols := wire.Columns{}
-			for _, cc := range s.cols {
-				cols = append(cols, wire.Column{Name: string(cc.name), Table: int32(uint32(cc.table)), AttrNo: int16(uint16(cc.attr)), Oid: oid.Oid(uint32(cc.oid)), Width: int16(uint16(cc.width))})
+			colMu.Lock()
+			cols, built := colCache[s]
+			if !built {
+				cols = wire.Columns{}
+				for _, cc := range s.cols {
+					cols = append(cols, wire.Column{Name: string(cc.name), Table: int32(uint32(cc.table)), AttrNo: int16(uint16(cc.attr)), Oid: oid.Oid(uint32(cc.oid)), Width: int16(uint16(cc.width))})
+				}
+				colCache[s] = cols
 			}
+			colMu.Unlock()
 			var po []oid.Oid
 			allZero := true
 			for _, p := range s.poids {
@@ -769,13 +779,16 @@ func collect(conn *memConn, rec *recorder, o *obsT) {
 	rec.checkKept("at the end of the connection")
 	// data handed to the callbacks of EARLIER connections (closed by now) has survived this connection's traffic
 	retiredMu.Lock()
-	for _, old := range retired {
+	for i, old := range retired {
 		if what, ok := old.keptIntact(); !ok {
 			rec.bad("%s handed to a callback of an earlier, closed connection was overwritten by the traffic of a later connection", what)
+			// reported once, with the connection during which it happened
+			retired = append(retired[:i:i], retired[i+1:]...)
 			break
 		}
 	}
-	if len(rec.kept)+len(rec.keptPs) > 0 {
+	// (a connection whose data changed during its own lifetime has reported that itself: it is not watched further)
+	if _, intact := rec.keptIntact(); intact && len(rec.kept)+len(rec.keptPs) > 0 {
 		retired = append(retired, rec)
 		if len(retired) > 6 {
 			retired = retired[1:]
